@@ -20,7 +20,11 @@ def explore(ctx):
     ctx.assumptions = ['canonicalisation: later results depend only on the call arguments, constructor tables, (r, r_) and the default team size -- all in the key; fields that are hashed are compared by content']
     r = ctx.run_step('c19_bfs', ctx.bins['c19_bfs'], ['--lits', ctx.lits_arg()])
     if ctx.stats.get('framework_replay_divergence', 0):
-        raise vlib.FrameworkError('history replay did not reproduce the recorded canonical key')
+        # the same call history replayed on a fresh object led to a different canonical key: the object's state is not a function of
+        # the calls made on it (e.g. a table that a background thread is still filling) -- that is C19's claim failing, not the harness
+        ctx.viols.append({'sig': 'C19.state-not-a-function-of-the-history', 'case': '', 'step': 'c19_bfs', 'args': ['--lits', ctx.lits_arg()], 'noreplay': True,
+                          'detail': '%d replay(s) of a recorded call history on a fresh object did not reproduce the recorded canonical key (private fields of the object)' % ctx.stats.get('framework_replay_divergence', 0)})
+        ctx.exhaustive = False
     if ctx.stats.get('depth_cap_hit', 0):
         ctx.exhaustive = False
         ctx.incomplete.append('BFS depth cap reached with unexpanded states')
